@@ -1,5 +1,8 @@
-from checks import scan, text, hexre, cond, shortcuts, externals
+from checks import scan, text, hexre, cond, shortcuts, externals, arena
 CHECKS = {
+    "C08": arena.c08,
+    "C17": arena.c17,
+    "C19": arena.c19,
     "C20": externals.c20,
     "C12": shortcuts.c12,
     "C04": cond.c04,
